@@ -422,6 +422,38 @@ def applyCheck (rules : List Rule) (desired : Ver) (objs : List Obj) (script : S
           if msg ≠ "" && m ≠ .own msg then some "the-failing-hook's-message-is-not-relayed" else none
         | _ => none
 
+/-- The clause "a request from A to B is served by a sequence of declared rules whenever such a
+sequence exists" of C15 on one observed run: a `Failed` answer needs a reason that the observation
+shows. With every declared rule registered by some hook (`linked`), objects of one source version `a`
+and `a`, `desired` different versions, `Failed` is legitimate only if
+* the last hook run did not succeed (non-zero exit, no/garbled response, its own `failedMessage`), or
+* every run succeeded and the runs walked the chain to the desired version, or delivered objects of
+  exactly the desired apiVersion, and the objects are not as requested (wrong number / wrong
+  apiVersion after the last step), or
+* no hook ran and no sequence of declared rules leads from `a` to `desired`.
+`none` = the clause holds. What remains a violation: `Failed` without any run although a chain
+exists, and `Failed` after only successful runs in the middle of the chain. -/
+def servedCheck (rules : List Rule) (linked : Rule → Bool) (desired : Ver) (objs : List Obj)
+    (script : Script) (inv : List Invocation) (reply : Reply) : Option String :=
+  match reply, extractVersions objs with
+  | .failed _, [a] =>
+    if trimGroup a = trimGroup desired then none
+    else if !(rules.all linked) then none
+    else match lastOutcome script 0 inv with
+      | none =>
+        if chainExistsDec rules a desired then some "a-chain-of-declared-rules-exists-but-no-hook-was-run"
+        else none
+      | some o =>
+        match o.okOut with
+        | none => none
+        | some out =>
+          if extractVersions out = [desired] then
+            if out.length ≠ objs.length then none
+            else some "failed-though-the-last-step-delivered-the-requested-objects"
+          else if versionsMatched (endOf a (inv.map (·.rule))) desired then none
+          else some "failed-before-the-end-of-the-chain-though-every-run-succeeded"
+  | _, _ => none
+
 /-! ## the unrepaired variants (witnesses only) -/
 namespace Unrepaired
 
